@@ -375,7 +375,7 @@ class Walker:
                 if di0 is None:
                     continue
                 for sp0 in di0.spawns:
-                    if sp0.task is not None:
+                    if sp0.task is not None and sp0.kind == "detached":        # (a JoinSet aborts its tasks when it is dropped)
                         tasks |= set(prog.cone(sp0.task, follow=("call", "closure", "poll")))
             for d in prog.facts.descendants(bi.body.id):
                 db = prog.facts.body(d)
